@@ -572,6 +572,20 @@ theorem dbside_iff_nodejs (hit : Bool) (p : Pkg) (v : Vuln) :
       = .ok hit := by
   cases hit <;> rfl
 
+/-- gobin / nodejs end to end: a package is reported iff the advisory's range
+    and the package's normalized version are of one kind and
+    `lower ≤ version < upper`. -/
+theorem dbside_reported_iff_in_range (r : NRange) (nv : NVersion) (p : Pkg) (v : Vuln) :
+    controllerKeeps Gen.Matchers.gobin.versionFilter Gen.Matchers.gobin.authoritative
+        (dbSideHit (some r) nv) (vulnerableNoop p v) = .ok true ↔
+      (r.lower.kind = r.upper.kind ∧ r.lower.kind = nv.kind ∧
+       r.lower.compare nv ≠ .gt ∧ nv.compare r.upper = .lt) := by
+  rw [dbside_iff_gobin]
+  simp only [Out.ok.injEq, dbSideHit, Bool.and_eq_true, decide_eq_true_eq, range_contains_iff]
+  constructor
+  · rintro ⟨⟨h1, h2⟩, h3, h4⟩; exact ⟨h1, h2, h3, h4⟩
+  · rintro ⟨h1, h2, h3, h4⟩; exact ⟨⟨h1, h2⟩, h3, h4⟩
+
 /-- rhcc: the range test only pre-filters (not authoritative); a hit is still
     subject to `Vulnerable`. -/
 theorem dbside_prefilter_rhcc (hit : Bool) (p : Pkg) (v : Vuln) :
@@ -622,6 +636,16 @@ theorem gen_literals :
 theorem gen_db_range_test :
     Gen.Matchers.dbRangeTest =
       ["'{", ",", "}'::int[]", "version_kind", "vulnerable_range @> ", "VersionRange($29, $30)"] := by
+  decide
+
+/-- The three comparator models transcribe exactly these library versions
+    (the libraries live outside /repo; a dependency bump must be followed by a
+    re-reading of the library). -/
+theorem gen_comparator_pins :
+    Gen.Matchers.comparatorPins =
+      ["github.com/knqyf263/go-apk-version v0.0.0-20200609155635-041fdbb8563f",
+       "github.com/knqyf263/go-deb-version v0.0.0-20190517075300-09fca494f03d",
+       "github.com/knqyf263/go-rpm-version v0.0.0-20170716094938-74609b86c936"] := by
   decide
 
 /-- python, ruby and java apply the same operators to the same keys. -/
